@@ -412,7 +412,7 @@ func TestC20Vectors(t *testing.T) {
 // single-bit and 128 all-but-one-bit entropies, every list word at every
 // position of two valid phrases, and the edge key indices.
 func TestC20Sweep(t *testing.T) {
-	d := kit.NewDirect(t, "C20", "exhaustive sweeps: 256 single-bit / all-but-one-bit entropies; every one of 2048 words at each of 12 positions of 2 valid phrases (accept iff reference checksum); 12 edge key indices × 8 seeds; 200 NewSeedPhrase samples re-decoded", c20Prop.Assumptions...)
+	d := kit.NewDirect(t, "C20", "exhaustive sweeps: 256 single-bit / all-but-one-bit entropies; every one of 2048 words at each of 12 positions of 2 valid phrases (accept iff reference checksum); 12 edge key indices × 8 seeds; constructed phrases of extreme length (eleven 8-letter resp. 3-letter words plus the longest resp. shortest admissible last word: phrases of 100..107 and 47..50 bytes); 200 NewSeedPhrase samples re-decoded", c20Prop.Assumptions...)
 	d.St.Exhaustive = true
 	defer d.Done()
 	type sweepCase struct {
@@ -453,6 +453,70 @@ func TestC20Sweep(t *testing.T) {
 		seed := blake2b.Sum256([]byte{byte(s)})
 		for _, ix := range edgeIndices {
 			d.Case(sweepCase{Sweep: "edge-index", Entropy: hex.EncodeToString(seed[:]), Index: ix}, nt("edge-index"), checkKey(seed, ix))
+		}
+	}
+	// phrase-length extremes: random entropies practically never yield phrases
+	// near the longest (12 words of 8 letters = 107 bytes) or shortest (12
+	// words of 3 letters = 47 bytes) possible, so they are constructed: eleven
+	// words drawn from the longest (resp. shortest) words of the list, and of
+	// the 128 possible completions (7 free bits + checksum) the one giving the
+	// longest (resp. shortest) last word
+	{
+		var long, short []int
+		for i, w := range refWords {
+			if len(w) == 8 {
+				long = append(long, i)
+			} else if len(w) == 3 {
+				short = append(short, i)
+			}
+		}
+		pack := func(first [11]int, tail7 int) (e [16]byte) {
+			n := new(big.Int)
+			for _, w := range first {
+				n.Lsh(n, 11)
+				n.Or(n, big.NewInt(int64(w)))
+			}
+			n.Lsh(n, 7)
+			n.Or(n, big.NewInt(int64(tail7)))
+			n.FillBytes(e[:])
+			return
+		}
+		rounds := 300
+		if kit.Thorough() {
+			rounds = 5000
+		}
+		for r := 0; r < rounds; r++ {
+			for kind, pool := range [][]int{long, short} {
+				h := blake2b.Sum256([]byte{byte(r), byte(r >> 8), byte(kind), 0xC2})
+				var first [11]int
+				for i := range first {
+					first[i] = pool[(int(h[2*i])<<8|int(h[2*i+1]))%len(pool)]
+				}
+				if r < len(pool) {
+					for i := range first {
+						first[i] = pool[r] // the same word eleven times
+					}
+				}
+				best, bestLen := 0, -1
+				for tail := 0; tail < 128; tail++ {
+					l := len(refWords[refEncode(pack(first, tail))[11]])
+					if kind == 1 {
+						l = 100 - l
+					}
+					if l > bestLen {
+						best, bestLen = tail, l
+					}
+				}
+				e := pack(first, best)
+				n := len(refPhrase(refEncode(e)))
+				cs := nt("phrase-length-extreme")
+				if n >= 100 {
+					cs.Class("phrase-bytes>=100")
+				} else if n <= 50 {
+					cs.Class("phrase-bytes<=50")
+				}
+				d.Case(sweepCase{Sweep: "phrase-length-extreme", Entropy: hex.EncodeToString(e[:])}, cs, checkEntropy(e, uint64(r)))
+			}
 		}
 	}
 	// NewSeedPhrase draws its own randomness; the oracle does not depend on the
